@@ -25,16 +25,15 @@ def _load():
 
 # ------------------------------------------------------------------ replay
 
-def _real_call(m, rows):
+def _real_call(m, rows, order=("So", "Sw", "Sg")):
     import numpy as np
     from bluebonnet.flow import flowproperties as fp
     params = fp.RelPermParams(**{k: m[k] for k in PNAMES})
-    sat = np.array([(m[f"So{j}"], m[f"Sw{j}"], m[f"Sg{j}"]) for j in range(rows)],
-                   dtype=[("So", "f8"), ("Sw", "f8"), ("Sg", "f8")])
+    sat = np.array([tuple(m[f"{s}{j}"] for s in order) for j in range(rows)], dtype=[(s, "f8") for s in order])
     return fp, params, sat
 
 
-def replay_kr(model, rows=2, exps=None):
+def replay_kr(model, rows=2, exps=None, order=("So", "Sw", "Sg")):
     import numpy as np
     names = PNAMES + [f"{s}{j}" for j in range(rows) for s in ("So", "Sw")]
     m = model_floats(model, names, default={k: 0.0 for k in names})
@@ -42,7 +41,7 @@ def replay_kr(model, rows=2, exps=None):
         m.update(dict(zip(("n_o", "n_w", "n_g"), exps)))
     for j in range(rows):
         m[f"Sg{j}"] = 1.0 - m[f"So{j}"] - m[f"Sw{j}"]
-    fp, params, sat = _real_call(m, rows)
+    fp, params, sat = _real_call(m, rows, tuple(order))
     try:
         with np.errstate(all="ignore"):
             kr = fp.relative_permeabilities(sat, params)
@@ -132,8 +131,8 @@ def _params(mod, exps):
     return params, vs, dom
 
 
-def _sats(rows):
-    vs, dom, cols = {}, [], {"So": [], "Sw": [], "Sg": []}
+def _sats(rows, order=("So", "Sw", "Sg")):
+    vs, dom, cols = {}, [], {k: [] for k in order}     # the fields of the record array in the caller's order
     for j in range(rows):
         so, sw = fresh(f"So{j}"), fresh(f"Sw{j}")
         sg = 1 - so - sw
@@ -145,16 +144,16 @@ def _sats(rows):
     return rec, dom
 
 
-def job_kr(job, exps):
+def job_kr(job, exps, order=("So", "Sw", "Sg")):
     mod = _load()
     job.encoded(mod, "relative_permeabilities")
-    tag = "n=" + ("symbolic real in [1,6]" if exps is None else ",".join(map(str, exps)))
+    tag = "n=" + ("symbolic real in [1,6]" if exps is None else ",".join(map(str, exps))) + ("" if order == ("So", "Sw", "Sg") else f"; record fields {','.join(order)}")
     job.bound(saturation_records=2, exponents="integers exactly; fractional: one symbolic real exponent per phase")
     params, pv, dom = _params(mod, exps)
-    rec, sdom = _sats(2)
+    rec, sdom = _sats(2, order)
     dom = dom + sdom
     res = paths(job, lambda: mod.relative_permeabilities(rec, params), dom, catch=(ValueError,))
-    rp = (replay_kr, {"rows": 2, "exps": list(exps) if exps else None})
+    rp = (replay_kr, {"rows": 2, "exps": list(exps) if exps else None, "order": list(order)})
     ok_paths = 0
     for k, pr in enumerate(res):
         if pr.exc is not None:
@@ -325,6 +324,7 @@ def jobs(tier):
     ints = [(1, 1, 1), (2, 2, 2), (3, 3, 3)] if tier == "quick" else [(n, n, n) for n in range(1, 7)] + [(1, 3, 6), (6, 2, 4)]
     out = [(f"kr-n{e[0]}{e[1]}{e[2]}", (lambda j, e=e: job_kr(j, e))) for e in ints]
     out.append(("kr-fractional", lambda j: job_kr(j, None)))
+    out.append(("kr-n212-fields-So-Sg-Sw", lambda j: job_kr(j, (2, 1, 2), ("So", "Sg", "Sw"))))
     out.append(("reject", job_reject))
     out.append(("reject-mixed", job_reject_mixed))
     out += [(f"twophase-n{e[0]}", (lambda j, e=e: job_twophase(j, e))) for e in ([(2, 2, 2)] if tier == "quick" else [(1, 1, 1), (2, 2, 2), (3, 3, 3)])]
